@@ -105,8 +105,8 @@ GEO_POST = {
 contract(f"{RT}:Router.gn_data_indicate_gbc", returns=ind_of("GeoBroadcastHST"), props=["C06", "C01", "C07", "C08", "C20", "C04"],
          shapes={"self": ROUTER, "packet": T.bytes(0, 2000), "common_header": common_of("GEOBROADCAST", "GeoBroadcastHST"),
                  "basic_header": BASIC},
-         requires=RX_PRE + ["self.mib.itsGnMaxGeoAreaSize >= 0"], opaque=["F_area", "area_size_m2"],
-         inline=[f"{RT}:Router.gn_data_forward_gbc", f"{RT}:Router.gn_area_cbf_forwarding", f"{RT}:Router._cbf_compute_timeout_ms", f"{RT}:Router._distance_m", f"{RT}:Router.calculate_distance"],
+         requires=RX_PRE + ["self.mib.itsGnMaxGeoAreaSize >= 0", "self.mib.itsGnDefaultMaxCommunicationRange > 0", "0 <= self.mib.itsGnCbfMinTime <= self.mib.itsGnCbfMaxTime"], opaque=["F_area", "area_size_m2"],
+         inline=[f"{RT}:Router.gn_data_forward_gbc", f"{RT}:Router.gn_area_cbf_forwarding"],
          raises={DE: "len(packet) < 44", "ValueError": "len(packet) >= 44 and st_field(packet, 4) > 12"},
          ensures=GEO_POST, cover=["result is not None", "n_sent() == 1", "n_timers() == 1"], **S)
 GAC_POST = dict(GEO_POST)
@@ -150,7 +150,8 @@ for _h in ("shb", "tsb", "gbc", "gac", "guc"):
 contract(f"{RT}:Router.process_common_header", props=["C20", "C01", "C04", "C06"],
          shapes={"self": ROUTER, "packet": T.bytes(0, 2000), "basic_header": BASIC},
          requires=["mib_ok(self.mib)", "lpv_valid(self.ego_position_vector)", "basic_header_valid(basic_header)",
-                   "self.mib.itsGnMaxPacketDataRate >= 0", "self.mib.itsGnMaxGeoAreaSize >= 0"],
+                   "self.mib.itsGnMaxPacketDataRate >= 0", "self.mib.itsGnMaxGeoAreaSize >= 0",
+                   "self.mib.itsGnDefaultMaxCommunicationRange > 0", "0 <= self.mib.itsGnCbfMinTime <= self.mib.itsGnCbfMaxTime"],
          may_raise=["flexstack.geonet.exceptions:DecodeError", "ValueError", "NotImplementedError",
                     "flexstack.geonet.exceptions:DecapError"],
          ensures={"hop_limit_above_maximum_never_processed": "implies(len(packet) >= 8 and basic_header.rhl > be(packet, 6, 1), False)",
@@ -185,7 +186,8 @@ _R[f"{RT}:Router.process_common_header"].ghost_effect = _pch_ghost
 contract(f"{RT}:Router.process_security_header", props=["C03", "C04"],
          shapes={"self": ROUTER, "packet": T.bytes(0, 2000), "basic_header": BASIC},
          requires=["mib_ok(self.mib)", "lpv_valid(self.ego_position_vector)", "basic_header_valid(basic_header)",
-                   "self.mib.itsGnMaxPacketDataRate >= 0", "self.mib.itsGnMaxGeoAreaSize >= 0"],
+                   "self.mib.itsGnMaxPacketDataRate >= 0", "self.mib.itsGnMaxGeoAreaSize >= 0",
+                   "self.mib.itsGnDefaultMaxCommunicationRange > 0", "0 <= self.mib.itsGnCbfMinTime <= self.mib.itsGnCbfMaxTime"],
          may_raise=["flexstack.geonet.exceptions:DecodeError", "ValueError", "NotImplementedError",
                     "flexstack.geonet.exceptions:DecapError"],
          modifies=["self.sequence_number"], frame_check=False,
@@ -208,7 +210,8 @@ _R[f"{RT}:Router.process_security_header"].ghost_effect = _psh_ghost
 contract(f"{RT}:Router.process_basic_header", props=["C03", "C04", "C01", "C20"],
          shapes={"self": ROUTER, "packet": T.bytes(0, 2000)},
          requires=["mib_ok(self.mib)", "lpv_valid(self.ego_position_vector)", "self.mib.itsGnMaxPacketDataRate >= 0",
-                   "self.mib.itsGnMaxGeoAreaSize >= 0"],
+                   "self.mib.itsGnMaxGeoAreaSize >= 0", "self.mib.itsGnDefaultMaxCommunicationRange > 0",
+                   "0 <= self.mib.itsGnCbfMinTime <= self.mib.itsGnCbfMaxTime"],
          may_raise=["flexstack.geonet.exceptions:DecodeError", "ValueError", "NotImplementedError",
                     "flexstack.geonet.exceptions:DecapError"],
          modifies=["self.sequence_number"], frame_check=False,
